@@ -82,6 +82,10 @@ type Faults struct {
 	// WriteStallAt (1-based; 0 = none): the write with index WriteStallAt-1 and all later ones
 	// block -- the peer has stopped taking bytes -- until the transport is closed
 	WriteStallAt int `json:"write_stall_at,omitempty"`
+	// WriteSlowAt (1-based; 0 = none): that one write takes the bytes (the peer sees them at
+	// once) but returns to its caller only WriteSlowNS later: a full window, a wedged pty
+	WriteSlowAt int   `json:"write_slow_at,omitempty"`
+	WriteSlowNS int64 `json:"write_slow_ns,omitempty"`
 }
 
 // NoFaults is the fault-free plan.
@@ -643,6 +647,13 @@ func (t *T) Write(b []byte) error {
 	}
 	t.Writes = append(t.Writes, rec)
 	t.emit(t.Peer.Input(rec.B, now), now)
+	if t.F.WriteSlowAt > 0 && len(t.Writes) == t.F.WriteSlowAt {
+		t.FaultFired["write-slow"]++
+		t.mu.Unlock()
+		time.Sleep(time.Duration(t.F.WriteSlowNS))
+		t.K.Yield("tr.write.slow")
+		t.mu.Lock()
+	}
 
 	return nil
 }
@@ -689,6 +700,17 @@ func (t *T) NWrites() int {
 	defer t.mu.Unlock()
 
 	return len(t.Writes)
+}
+
+// WriteTime is the instant write i (0-based) was made, -1 if there was none.
+func (t *T) WriteTime(i int) time.Duration {
+	t.mu.Lock()
+	defer t.mu.Unlock()
+	if i < 0 || i >= len(t.Writes) {
+		return -1
+	}
+
+	return t.Writes[i].T
 }
 
 // Faults returns a copy of the per-kind counters of faults that fired.
